@@ -22,9 +22,17 @@ import (
 // exists, was successfully opened, but its bytes don't decode as a
 // gob-encoded Tombstones map. Distinct from open errors (e.g. a
 // Windows sharing violation while a concurrent writer is mid-
-// rename), which are transient and should not be treated as
-// corruption.
+// rename), which may be transient and are retried before
+// readTombstones gives up. AutoTA fails closed on both: either way
+// the set of revoked keys is unknown.
 var errCorruptTombstones = errors.New("trust anchor tombstones file corrupt")
+
+// Open errors other than "file does not exist" are retried a few
+// times before the tombstone store counts as unreadable.
+const (
+	tombstoneOpenAttempts = 3
+	tombstoneOpenBackoff  = 50 * time.Millisecond
+)
 
 // State represents the state of a trust anchor in RFC 5011 lifecycle.
 type State int
@@ -159,25 +167,29 @@ func (r *Resolver) AutoTA() {
 
 	tombstones, err := readTombstones(tombstonePath)
 	if err != nil {
-		// Distinguish "transient inability to read" from "actual
-		// corruption". A sharing violation on Windows (concurrent
-		// writer renaming over the file) or a permission hiccup is
-		// not the same as a malformed gob payload. We only fail
-		// closed when we successfully read bytes that don't decode
-		// — readTombstones surfaces that as errCorruptTombstones.
-		// Other open errors leave us with an empty in-memory map
-		// and the next AutoTA tick (or a process restart in the
-		// non-transient case) can re-load.
+		// The store exists but we cannot tell which keys it names —
+		// its bytes don't decode (errCorruptTombstones) or it could
+		// not be opened even after the retries in readTombstones
+		// (permissions, descriptor exhaustion, I/O error, symlink
+		// loop). Going on with an empty map would let the merge
+		// loop below re-admit a revoked key that cfg.RootKeys still
+		// lists, publish it before the fetch, and have the
+		// persistence tail replace the real store with one that no
+		// longer names it. RFC 5011 §2.1 revocation is permanent, so
+		// fail closed instead: clear the live trust set, leave both
+		// files alone and let the next tick (or the operator) retry.
+		// A run that can read the store again republishes from disk
+		// once its writes land.
 		if errors.Is(err, errCorruptTombstones) {
 			zlog.Error("Trust anchor tombstones file corrupted — clearing in-memory trust set and aborting refresh", "path", tombstonePath, "error", err.Error())
-			r.Lock()
-			r.rootKeys = nil
-			r.Unlock()
-			refreshResult = taRefreshPersistenceError
-			return
+		} else {
+			zlog.Error("Trust anchor tombstones file unreadable — clearing in-memory trust set and aborting refresh", "path", tombstonePath, "error", err.Error())
 		}
-		zlog.Warn("Trust anchor tombstones file unreadable — proceeding with empty in-memory tombstones", "path", tombstonePath, "error", err.Error())
-		tombstones = make(Tombstones)
+		r.Lock()
+		r.rootKeys = nil
+		r.Unlock()
+		refreshResult = taRefreshPersistenceError
+		return
 	}
 
 	// Copy legacy Revoked/Removed entries into the material-keyed
@@ -815,21 +827,33 @@ func writeToTAFile(filename string, kskCurrent TrustAnchors) error {
 }
 
 func readTombstones(filename string) (Tombstones, error) {
-	f, err := os.Open(filename) //nolint:gosec // G304 - filename from config, admin controlled
-	if err != nil {
+	var (
+		f   *os.File
+		err error
+	)
+	for attempt := 1; ; attempt++ {
+		f, err = os.Open(filename) //nolint:gosec // G304 - filename from config, admin controlled
+		if err == nil {
+			break
+		}
 		if os.IsNotExist(err) {
+			// No revocation has ever been recorded.
 			return make(Tombstones), nil
 		}
-		return nil, err
+		// Possibly transient (e.g. a Windows sharing violation
+		// while a concurrent writer is mid-rename): try again
+		// before reporting the store as unreadable.
+		if attempt >= tombstoneOpenAttempts {
+			return nil, err
+		}
+		time.Sleep(tombstoneOpenBackoff)
 	}
 	defer f.Close() //nolint:errcheck
 
 	t := make(Tombstones)
 	if err := gob.NewDecoder(f).Decode(&t); err != nil {
-		// Wrap so AutoTA can distinguish "I read bytes that don't
-		// parse" (real corruption — fail closed) from "I couldn't
-		// open the file at all" (transient, e.g. Windows sharing
-		// violation during a concurrent rename).
+		// Wrap so AutoTA can tell "I read bytes that don't parse"
+		// from "I couldn't open the file at all" in its log line.
 		return nil, fmt.Errorf("%w: %v", errCorruptTombstones, err)
 	}
 	return t, nil
